@@ -146,7 +146,8 @@ def make_fn(L):
         # traverse_from(node_q, seg) == traverse(q + seg), with bounded distinct reads
         pset = cache["pset"]
         for q, node_q in positions:
-            for p in paths:
+            ann_q = ann(node_q)
+            for p in sorted(paths, key=lambda x: (-len(x), x)):  # long segments first, then shorter ones through the same start node
                 if len(p) <= len(q) or p[: len(q)] != q:
                     continue
                 seg = p[len(q):]
@@ -169,6 +170,10 @@ def make_fn(L):
                 if len(reads) > maxreads or len(set(reads)) != len(reads):
                     o.viol("C08", "traverse_reads", "traverse_from read more than one database entry per hashed child hop", call="traverse_from",
                            start=q, seg=seg, reads=len(reads), bound=maxreads)
+            if ann(node_q) != ann_q:
+                o.viol("C08", "start_node_modified", "traverse_from modified the node object it was handed (it no longer equals traverse(prefix))",
+                       call="traverse_from", start=q)
+                break
         if t.db.writes or t.db.dels:
             o.viol("C08", "traverse_mutated_db", "a traversal wrote to the database")
         if positions and not o.samples:
